@@ -349,8 +349,10 @@ def run(ctx, quick):
             e = rows[line - 1]
             sc = scen_by_sid.get(e.get("sid"), {})
             node = next((n for n in sc.get("nodes", []) if n["name"] == e.get("node")), {})
-            ctx.notes.append("drift: model predicted class '%s', real evaluation was '%s' (seed %s, population %s, layout %s, node key %s, late %s, behaviour %s, %s on chain %s)"
-                             % (pred, obs, ctx.seed, sc.get("pop"), e.get("grp"), node.get("key"), node.get("late"), "/".join(node.get("hist", [])), e.get("kind"), e.get("chain")))
+            note = ("drift: model predicted class '%s', real evaluation was '%s' (seed %s, population %s, layout %s, node key %s, late %s, behaviour %s, %s on chain %s)"
+                    % (pred, obs, ctx.seed, sc.get("pop"), e.get("grp"), node.get("key"), node.get("late"), "/".join(node.get("hist", [])), e.get("kind"), e.get("chain")))
+            ctx.notes.append(note)
+            ctx.log(note)
         all_rows.append(rows)
     flat = [x for rows in all_rows for x in rows]
 
